@@ -86,4 +86,140 @@ OperatorsUntouched(t) ==
     /\ (IsMeth(t) /\ t.a[1].s \in {"First", "Count"}) => (t.n = 0 /\ t.p = <<>>)
     /\ \A i \in 1..Len(t.a) : OperatorsUntouched(t.a[i])
 
+---------------------------------------------------------------------------
+(* Part 3 (C08): type following yields the declared types.                  *)
+(* Types are terms too:  ty(name; args)  tv(name)  noann  rec(p = field     *)
+(* names; field types).  A universe is a sequence of classes                *)
+(*   [name, params, base (a type or noann), methods: Seq([name, ret])]      *)
+(* in dependency order; single inheritance; Iterable[T] is the root of all  *)
+(* iterables; collection operators (First, Count, Select, Where,            *)
+(* SelectMany and those a registered collection class adds) are available   *)
+(* on every iterable.                                                       *)
+Ty(nm, as) == T("ty", nm, 0, <<>>, as)
+Ty0(nm)    == Ty(nm, <<>>)
+TVar(v)    == T("tv", v, 0, <<>>, <<>>)
+NoAnn      == T("noann", "", 0, <<>>, <<>>)
+AnyT   == Ty0("Any")
+IntT   == Ty0("int")
+FloatT == Ty0("float")
+BoolT  == Ty0("bool")
+StrT   == Ty0("str")
+Iter(x) == Ty("Iterable", <<x>>)
+RecT(fields, tys) == T("rec", "", 0, fields, tys)
+Mth(nm, ret) == [name |-> nm, ret |-> ret]
+Cls(nm, params, base, methods) == [name |-> nm, params |-> params, base |-> base, methods |-> methods]
+
+Universe == <<
+    Cls("Trk", <<>>, NoAnn, <<Mth("pt", FloatT), Mth("q", IntT)>>),
+    Cls("Jet", <<>>, NoAnn, <<Mth("pt", FloatT), Mth("n", IntT), Mth("good", BoolT),
+                              Mth("trks", Iter(Ty0("Trk"))), Mth("noann", NoAnn)>>),
+    Cls("Box", <<"T">>, NoAnn, <<Mth("item", TVar("T")), Mth("items", Iter(TVar("T"))), Mth("size", IntT)>>),
+    Cls("JetBox", <<>>, Ty("Box", <<Ty0("Jet")>>), <<Mth("extra", IntT)>>),
+    Cls("Re", <<"U">>, Ty("Box", <<Iter(TVar("U"))>>), <<Mth("one", TVar("U"))>>),
+    Cls("MyIter", <<"T">>, Iter(TVar("T")), <<Mth("Last", TVar("T"))>>),
+    Cls("JetIter", <<>>, Ty("MyIter", <<Ty0("Jet")>>), <<>>),
+    Cls("Evt", <<>>, NoAnn, <<Mth("met", FloatT), Mth("nj", IntT), Mth("flag", BoolT),
+                              Mth("jets", Iter(Ty0("Jet"))), Mth("trks", Iter(Ty0("Trk"))),
+                              Mth("box", Ty("Box", <<Ty0("Jet")>>)), Mth("jb", Ty0("JetBox")),
+                              Mth("re", Ty("Re", <<Ty0("Trk")>>)), Mth("jetiter", Ty0("JetIter")),
+                              Mth("myiter", Ty("MyIter", <<Ty0("Trk")>>)), Mth("noann", NoAnn)>>) >>
+(* operators a registered collection class adds to every iterable: name -> "elem" | "int" *)
+ExtraCollectionOps == <<Mth("Second", TVar("elem")), Mth("Size2", IntT)>>
+
+ClassNames == {Universe[i].name : i \in 1..Len(Universe)}
+ClassOf(nm) == Universe[CHOOSE i \in 1..Len(Universe) : Universe[i].name = nm]
+
+(* substitute type variables *)
+RECURSIVE TySubst(_, _, _)
+TySubst(ty, vars, vals) ==
+    IF ty.k = "tv" THEN (IF \E i \in 1..Len(vars) : vars[i] = ty.s
+                         THEN vals[CHOOSE i \in 1..Len(vars) : vars[i] = ty.s] ELSE ty)
+    ELSE [ty EXCEPT !.a = [i \in 1..Len(ty.a) |-> TySubst(ty.a[i], vars, vals)]]
+
+(* the instantiated base type of an instantiated class type (noann if none) *)
+BaseOf(ty) == IF ty.k # "ty" \/ ty.s \notin ClassNames THEN NoAnn
+              ELSE LET c == ClassOf(ty.s) IN
+                   IF c.base.k = "noann" THEN NoAnn
+                   ELSE TySubst(c.base, c.params, IF Len(ty.a) = Len(c.params) THEN ty.a
+                                                   ELSE [i \in 1..Len(c.params) |-> AnyT])
+
+RECURSIVE ElemType(_)      \* element type if ty is (a subclass of) Iterable[...], else noann
+ElemType(ty) == IF ty.k = "ty" /\ ty.s = "Iterable" /\ Len(ty.a) = 1 THEN ty.a[1]
+                ELSE IF BaseOf(ty).k = "noann" THEN NoAnn ELSE ElemType(BaseOf(ty))
+IsIterableT(ty) == ElemType(ty).k # "noann"
+Unwrap(ty) == IF IsIterableT(ty) THEN ElemType(ty) ELSE AnyT
+
+(* declared return type of method m on an instance of type ty, through inheritance; *)
+(* noann-kind result: <<found, type>>                                              *)
+RECURSIVE LookupMethod(_, _)
+LookupMethod(ty, m) ==
+    IF ty.k # "ty" \/ ty.s \notin ClassNames THEN <<FALSE, AnyT>>
+    ELSE LET c == ClassOf(ty.s)
+             args == IF Len(ty.a) = Len(c.params) THEN ty.a ELSE [i \in 1..Len(c.params) |-> AnyT]
+         IN IF \E i \in 1..Len(c.methods) : c.methods[i].name = m
+            THEN LET r == c.methods[CHOOSE i \in 1..Len(c.methods) : c.methods[i].name = m].ret IN
+                 <<TRUE, IF r.k = "noann" THEN AnyT ELSE TySubst(r, c.params, args)>>
+            ELSE IF c.base.k = "noann" THEN <<FALSE, AnyT>> ELSE LookupMethod(BaseOf(ty), m)
+
+Lookup(env, x) == IF x \in DOMAIN env THEN env[x] ELSE AnyT
+NumJoin(a, b, op) == IF a = AnyT \/ b = AnyT THEN AnyT
+                     ELSE IF a = FloatT \/ b = FloatT \/ op = "/" THEN FloatT ELSE IntT
+
+RECURSIVE TypeOf(_, _)
+TypeOfMethod(t, env) ==
+    LET m == t.a[1].s
+        rt == TypeOf(t.a[1].a[1], env)
+        own == LookupMethod(rt, m)
+        el == Unwrap(rt)
+        args == CallArgs(t)
+        lamBody(p) == TypeOf(args[1].a[1], (args[1].p[1] :> p) @@ env)
+    IN IF own[1] THEN own[2]
+       ELSE IF ~IsIterableT(rt) THEN AnyT
+       ELSE CASE m = "First" -> el
+              [] m = "Count" -> IntT
+              [] m = "Second" -> el
+              [] m = "Size2" -> IntT
+              [] m = "Select" /\ Len(args) = 1 /\ args[1].k = "lam" -> Iter(lamBody(el))
+              [] m = "Where" /\ Len(args) = 1 /\ args[1].k = "lam" -> Iter(el)
+              [] m = "SelectMany" /\ Len(args) = 1 /\ args[1].k = "lam" -> Iter(Unwrap(lamBody(el)))
+              [] OTHER -> AnyT
+
+TypeOf(t, env) ==
+    CASE t.k = "name"  -> Lookup(env, t.s)
+      [] t.k = "int"   -> IntT
+      [] t.k = "float" -> FloatT
+      [] t.k = "bool"  -> BoolT
+      [] t.k = "str"   -> StrT
+      [] t.k = "call"  ->
+           IF t.a[1].k = "attr" THEN TypeOfMethod(t, env)
+           ELSE IF IsCallOf(t, "len") THEN IntT
+           ELSE IF IsCallOf(t, "abs") THEN FloatT
+           ELSE AnyT
+      [] t.k \in {"cmp", "boolop"} -> BoolT
+      [] t.k = "unop"  -> IF t.s = "not" THEN BoolT ELSE TypeOf(t.a[1], env)
+      [] t.k = "binop" -> NumJoin(TypeOf(t.a[1], env), TypeOf(t.a[2], env), t.s)
+      [] t.k = "ifexp" -> LET a == TypeOf(t.a[2], env)  b == TypeOf(t.a[3], env) IN
+                          IF a = b THEN a ELSE FloatT
+      [] t.k = "dict"  -> RecT([i \in 1..(Len(t.a) \div 2) |-> t.a[2 * i - 1].s],
+                               [i \in 1..(Len(t.a) \div 2) |-> TypeOf(t.a[2 * i], env)])
+      [] t.k = "sub"   ->
+           IF t.a[1].k = "tuple" /\ t.a[2].k = "int" THEN TypeOf(t.a[1].a[t.a[2].n + 1], env)
+           ELSE LET vt == TypeOf(t.a[1], env) IN
+                IF vt.k = "rec" /\ t.a[2].k = "str" /\ \E i \in 1..Len(vt.p) : vt.p[i] = t.a[2].s
+                THEN vt.a[CHOOSE i \in 1..Len(vt.p) : vt.p[i] = t.a[2].s]
+                ELSE Unwrap(vt)
+      [] t.k = "attr"  ->
+           LET vt == TypeOf(t.a[1], env) IN
+           IF vt.k = "rec" /\ \E i \in 1..Len(vt.p) : vt.p[i] = t.s
+           THEN vt.a[CHOOSE i \in 1..Len(vt.p) : vt.p[i] = t.s] ELSE AnyT
+      [] OTHER -> AnyT
+
+(* item type of the stream an operator produces; "refuse" for a non-boolean Where filter *)
+StreamResult(op, itemT, lam) ==
+    LET bt == TypeOf(lam.a[1], (lam.p[1] :> itemT)) IN
+    CASE op = "Select" -> <<"ok", bt>>
+      [] op = "SelectMany" -> <<"ok", Unwrap(bt)>>
+      [] op = "Where" -> IF bt = BoolT THEN <<"ok", itemT>> ELSE <<"ValueError", itemT>>
+      [] OTHER -> <<"ok", AnyT>>
+
 =============================================================================
